@@ -2,7 +2,7 @@
    SGR semantics).  Only statements, each closed by [exact]. *)
 From Coq Require Import NArith List Bool.
 From AV Require Import Generated.Table Spec.Vt Spec.Sgr Model.Base Model.Parser Model.Wincon
-  Proofs.TableFacts Proofs.WinconSgr.
+  Proofs.TableFacts Proofs.WinconSgr Proofs.WinconRuns Proofs.WinconSpecRuns.
 Import ListNotations.
 Local Open Scope N_scope.
 
@@ -44,3 +44,58 @@ Proof. vm_compute. reflexivity. Qed.
 Theorem c07_table_is_williams :
   forall s b, b < 256 -> trans_matches s b = true.
 Proof. exact table_is_williams. Qed.
+
+(* ---- the runs are the specification's runs ---------------------------------------------- *)
+
+(* [sgr_events_ok s es] (Proofs/WinconSpecRuns), inductively along the
+   interpretation: every event `ECsi ps [] false 'm'` met in rendition state [s] has
+   [ps = groups_of items] with every item in G and [ul_simple s items], and the rest
+   is ok in [sgr_apply s ps]; every other event (print, execute, CSI with
+   intermediates / ignore flag / another final byte, OSC, ESC, DCS) is unconstrained.
+
+   For every input (bytes < 256, ANY byte string: malformed UTF-8 included) whose SGR
+   events are in the grammar, extract_next never panics and its merged runs are
+   exactly the specification's runs: the visible text in order (printed code points
+   and TAB / LF / FF / CR), each character tagged with the rendition in effect,
+   grouped into maximal runs; the rendition persists across sequences.  With
+   c03_wincon_chunked the same holds across calls.  Full strength. *)
+Theorem c07_runs_are_spec :
+  forall input,
+  Forall (fun b => b < 256) input -> sgr_events_ok style_default (spec_events input) ->
+  exists its p c,
+    extract_next input parser_new capture_default = Some (its, p, c) /\
+    merge_runs its = spec_runs input.
+Proof. exact runs_are_spec. Qed.
+
+(* the character-level statement it comes from: on such event streams the tagging
+   computed by the capture is the specification's interpretation *)
+Theorem c07_tagging_is_interp :
+  forall es s, Forall ev_ok es -> sgr_events_ok s es ->
+  tags s es = fst (interp s es) /\ style_after s es = snd (interp s es).
+Proof. exact tags_interp. Qed.
+
+(* [ev_ok] holds of every event of the specification parser: printed code points
+   are >= 0x20 and an Execute of 0x20 never occurs (so is_ascii_whitespace and the
+   specification's TAB / LF / FF / CR test agree on executes) *)
+Theorem c07_spec_events_ok :
+  forall bs, Forall (fun b => b < 256) bs -> Forall ev_ok (spec_events bs).
+Proof. exact spec_events_ok. Qed.
+
+(* every event that is not a plain SGR dispatch leaves the style alone, in the
+   adapter and in the specification alike *)
+Theorem c07_non_sgr_inert :
+  forall s e, (forall ps, e <> ECsi ps [] false 109) ->
+  cap_style_step s e = s /\ event_style s e = s.
+Proof. exact non_sgr_inert. Qed.
+
+(* non-vacuity: "a ESC[1;31m b ESC[38;5;9m TAB ESC[?25h c ESC[0m d" -- the hypothesis
+   holds and the runs are as expected *)
+Theorem c07_example_runs :
+  sgr_events_ok style_default
+    (spec_events [97; 27; 91; 49; 59; 51; 49; 109; 98; 27; 91; 51; 56; 59; 53; 59; 57; 109; 9;
+                  27; 91; 63; 50; 53; 104; 99; 27; 91; 48; 109; 100]) /\
+  spec_runs [97; 27; 91; 49; 59; 51; 49; 109; 98; 27; 91; 51; 56; 59; 53; 59; 57; 109; 9;
+             27; 91; 63; 50; 53; 104; 99; 27; 91; 48; 109; 100]
+  = [(style_default, [97]); (mkStyle (Some (CAnsi 1)) None None 1, [98]);
+     (mkStyle (Some (CIdx 9)) None None 1, [9; 99]); (style_default, [100])].
+Proof. exact example_runs. Qed.
